@@ -216,6 +216,55 @@ func registerIntrinsics2(e *Engine) {
 		}
 		return Tuple{mkBytes(b), Iface{}}
 	}
+	I["os.Open"] = func(e *Engine, fr *frame, a []Value) Value {
+		p := e.cs(a[0])
+		content, ok := e.vfs[filepath.Clean(p)]
+		if ok && content == vfsDeleted {
+			ok = false
+		}
+		if !ok && !e.vfsOnly(p) {
+			if b, err := os.ReadFile(e.realPath(p)); err == nil {
+				content, ok = string(b), true
+			}
+		}
+		if !ok {
+			return Tuple{(*Value)(nil), e.pathErr("open", p)}
+		}
+		f := new(Value)
+		*f = Struct{content} // stand-in for os.File: only the intrinsics below look inside
+		return Tuple{f, Iface{}}
+	}
+	I["(*os.File).Close"] = func(e *Engine, fr *frame, a []Value) Value { return Iface{} }
+	I["bufio.NewReader"] = func(e *Engine, fr *frame, a []Value) Value {
+		// the reader's buffer field holds the whole content; io.ReadAll below returns it
+		content := ""
+		if i, ok := a[0].(Iface); ok && i.t != nil {
+			if p, ok := i.v.(*Value); ok && p != nil {
+				if st, ok := (*p).(Struct); ok && len(st) == 1 {
+					content, _ = st[0].(string)
+				}
+			}
+		}
+		br := e.prog.ImportedPackage("bufio").Type("Reader").Type()
+		r := new(Value)
+		z := zero(br).(Struct)
+		z[0] = mkBytes([]byte(content))
+		*r = z
+		return r
+	}
+	I["io.ReadAll"] = func(e *Engine, fr *frame, a []Value) Value {
+		if i, ok := a[0].(Iface); ok && i.t != nil {
+			if p, ok := i.v.(*Value); ok && p != nil {
+				if st, ok := (*p).(Struct); ok && len(st) > 0 {
+					if sl, ok := st[0].(Slice); ok {
+						return Tuple{sl, Iface{}}
+					}
+				}
+			}
+		}
+		return Tuple{Slice{}, Iface{}}
+	}
+	I["fmt.Fprintf"] = func(e *Engine, fr *frame, a []Value) Value { return Tuple{int64(0), Iface{}} }
 	I["os.IsNotExist"] = func(e *Engine, fr *frame, a []Value) Value {
 		i := a[0].(Iface)
 		if i.t == nil {
